@@ -10,7 +10,7 @@
    where g_i is the computed multiplier gamma_i = fdiv sup_{i-1} beta_{i-1}  (|g_i| <= about 1 for a diagonally
    dominant matrix, so that the perturbation is then of order u |T|). *)
 From Coq Require Import List Arith Lia Bool Reals Lra Psatz.
-From OV Require Import Base.Panic Base.Arith Model.Vector Model.Matrix Model.Tridiag Proofs.Tridiag Proofs.TridiagTrace.
+From OV Require Import Base.Panic Base.Arith Model.Vector Model.Matrix Model.Tridiag Proofs.Tridiag Proofs.TridiagTrace Proofs.TridiagTotal.
 Import ListNotations.
 Local Open Scope R_scope.
 
@@ -282,15 +282,15 @@ Proof using u_range.
   intros H. assert (H' := pm1 u u_range d H). rewrite Rabs_right by lra. exact H'.
 Qed.
 
-Lemma multipliers_bounded (t : tridiag ARnd) (r bl gl yl : list ARnd) :
-  wfT t -> dominant_u t -> length bl = tn t -> fwd_rel t r (tn t) bl gl yl ->
-  forall k, (k < tn t)%nat ->
+Lemma multipliers_bounded (t : tridiag ARnd) (r bl gl yl : list ARnd) (m : nat) :
+  wfT t -> dominant_u t -> (m <= tn t)%nat -> fwd_rel t r m bl gl yl ->
+  forall k, (k < m)%nat ->
     Rabs (nth k (tsup t) 0) * (1 + u) <= Rabs (nth k bl 0) /\ ((1 <= k)%nat -> Rabs (nth k gl 0) <= 1).
 Proof using u_range fsub_ok fmul_ok fdiv_ok.
-  intros W D Lb (B0 & Z0 & D0 & RelS). pose proof W as (Hm & Hs & Hp).
+  intros W D Lm (B0 & Z0 & D0 & RelS). pose proof W as (Hm & Hs & Hp).
   change (@zero ARnd) with 0 in *. change (T ARnd) with R in *.
   induction k as [|k IH]; intros Hk.
-  - split; [|lia]. destruct (D 0%nat Hk) as (Nz & Dk). change (T ARnd) with R in *. cbn [nth] in Dk. rewrite Rabs_R0 in Dk.
+  - split; [|lia]. destruct (D 0%nat ltac:(lia)) as (Nz & Dk). change (T ARnd) with R in *. cbn [nth] in Dk. rewrite Rabs_R0 in Dk.
     replace (nth 0 bl 0) with (nth 0 (tmain t) 0) by (symmetry; exact B0).
     pose proof (Rabs_pos (nth 0 (tmain t) 0)). pose proof (Rabs_pos (nth 0 (tsup t) 0)). change (T ARnd) with R in *; nra.
   - destruct (IH ltac:(lia)) as (Qk & _).
@@ -316,7 +316,7 @@ Proof using u_range fsub_ok fmul_ok fdiv_ok.
     destruct (sub_mul_form (nth (S k) (tmain t) 0) (nth k (tsub t) 0) (nth (S k) gl 0)) as (d2 & d3 & H2 & H3 & E23).
     replace (nth (S k) bl 0) with ((nth (S k) (tmain t) 0 - nth k (tsub t) 0 * nth (S k) gl 0 * (1 + d2)) * (1 + d3))
       by (rewrite <- E23; symmetry; exact Eb').
-    destruct (D (S k) Hk) as (Nz & Dk). change (T ARnd) with R in *. cbn [nth] in Dk.
+    destruct (D (S k) ltac:(lia)) as (Nz & Dk). change (T ARnd) with R in *. cbn [nth] in Dk.
     rewrite Rabs_mult.
     pose proof (abs_one_plus d2 H2) as H2'. pose proof (abs_one_plus d3 H3) as H3'.
     assert (Ht : Rabs (nth (S k) (tmain t) 0 - nth k (tsub t) 0 * nth (S k) gl 0 * (1 + d2))
@@ -351,7 +351,7 @@ Proof using u_range fsub_ok fmul_ok fdiv_ok.
   assert (Gi : Rabs (nth i (0 :: tsub t) 0 * nth i gl 0) <= Rabs (nth i (0 :: tsub t) 0)).
   { destruct i as [|k].
     - cbn [nth]. rewrite Rmult_0_l. lra.
-    - destruct (multipliers_bounded t r bl gl yl W D Lb Rel (S k) Hi) as (_ & G). specialize (G ltac:(lia)).
+    - destruct (multipliers_bounded t r bl gl yl (tn t) W D (le_n _) Rel (S k) Hi) as (_ & G). specialize (G ltac:(lia)).
       rewrite Rabs_mult. pose proof (Rabs_pos (nth (S k) (0 :: tsub t) 0)). change (T ARnd) with R in *; nra. }
   exists (nth i (0 :: tsub t) 0 * ea), (nth i (tmain t) 0 * eb + nth i (0 :: tsub t) 0 * nth i gl 0 * eg),
          (nth i (tsup t) 0 * ec).
@@ -362,6 +362,91 @@ Proof using u_range fsub_ok fmul_ok fdiv_ok.
     pose proof (Rabs_pos eb). pose proof (Rabs_pos eg). change (T ARnd) with R in *; nra. }
   split; [rewrite Rabs_mult; pose proof (Rabs_pos (nth i (tsup t) 0)); change (T ARnd) with R in *; nra|].
   rewrite <- Eq. ring.
+Qed.
+
+(* ---------- strictly dominant systems are never refused in the standard model ---------- *)
+Definition dominant_su (t : tridiag ARnd) : Prop :=
+  forall i, (i < tn t)%nat ->
+    (Rabs (nth i (0 :: tsub t) 0) + Rabs (nth i (tsup t) 0)) * (1 + u) < Rabs (nth i (tmain t) 0) * (1 - u).
+
+Lemma dominant_su_u (t : tridiag ARnd) : dominant_su t -> dominant_u t.
+Proof using u_range.
+  intros D i Hi. specialize (D i Hi). split; [|lra].
+  intros E. rewrite E, Rabs_R0 in D.
+  pose proof (Rabs_pos (nth i (0 :: tsub t) 0)). pose proof (Rabs_pos (nth i (tsup t) 0)). nra.
+Qed.
+
+Lemma mult_le_1 (c beta d1 : R) : beta <> 0 -> Rabs c * (1 + u) <= Rabs beta -> Rabs d1 <= u ->
+  Rabs (c / beta * (1 + d1)) <= 1.
+Proof using u_range.
+  intros Hb Q H1. unfold Rdiv. rewrite !Rabs_mult, Rabs_inv.
+  pose proof (abs_one_plus d1 H1) as H1'. pose proof (Rabs_pos c) as Pc.
+  assert (Pb : 0 < Rabs beta) by now apply Rabs_pos_lt.
+  apply (Rmult_le_reg_r (Rabs beta)); [exact Pb|].
+  replace (Rabs c * / Rabs beta * Rabs (1 + d1) * Rabs beta) with (Rabs c * Rabs (1 + d1)) by (field; lra).
+  nra.
+Qed.
+
+Lemma candidate_nz (a b c g d2 d3 : R) : Rabs g <= 1 -> Rabs d2 <= u -> Rabs d3 <= u ->
+  (Rabs a + Rabs c) * (1 + u) < Rabs b * (1 - u) ->
+  (b - a * g * (1 + d2)) * (1 + d3) <> 0.
+Proof using u_range.
+  intros Hg H2 H3 D E.
+  apply Rmult_integral in E. destruct E as [E|E]; [|apply (one_plus_nz d3 H3); exact E].
+  assert (Ht : Rabs (b - a * g * (1 + d2)) >= Rabs b - Rabs a * (1 + u)).
+  { eapply Rge_trans; [apply Rle_ge, Rabs_triang_inv|]. rewrite !Rabs_mult.
+    pose proof (abs_one_plus d2 H2). pose proof (Rabs_pos a). pose proof (Rabs_pos g).
+    assert (P1 : Rabs g * Rabs (1 + d2) <= 1 + u) by nra. nra. }
+  rewrite E, Rabs_R0 in Ht. pose proof (Rabs_pos a). pose proof (Rabs_pos c). pose proof (Rabs_pos b). nra.
+Qed.
+
+Theorem thomas_dominant_solved_lemma (t : tridiag ARnd) (r : list ARnd) :
+  wfT t -> (1 <= tn t)%nat -> length r = tn t -> dominant_su t -> exists x, tsolve t r = Ok x.
+Proof using u_range fsub_ok fmul_ok fdiv_ok.
+  intros W Hn Hr D. pose proof W as (Hm & Hs & Hp).
+  assert (DA : forall x y : ARnd, eqb y zero = false -> exists z, div x y = Ok z)
+    by (intros x y _; eexists; reflexivity).
+  destruct (Proofs.TridiagTotal.thomas_shape_lemma DA t r W Hn Hr) as [(x & E & _)|E]; [now exists x|].
+  exfalso.
+  destruct (thomas_refusal_trace_lemma t r W Hn Hr DA E) as [Z|(k & bl & gl & yl & g & Hk & Lb & Rel & Eg & Ez)].
+  - (* leading diagonal *)
+    specialize (D 0%nat ltac:(lia)). cbn in Z.
+    match type of Z with (if Req_EM_T ?v ?w then _ else _) = _ => destruct (Req_EM_T v w) as [E0|]; [|discriminate] end.
+    change (@zero ARnd) with 0 in *. change (T ARnd) with R in *. rewrite E0, Rabs_R0 in D.
+    pose proof (Rabs_pos (nth 0 (0 :: tsub t) 0)). pose proof (Rabs_pos (nth 0 (tsup t) 0)).
+    change (T ARnd) with R in *. nra.
+  - (* a later step: the candidate pivot cannot vanish *)
+    destruct (multipliers_bounded t r bl gl yl k W (dominant_su_u t D) ltac:(lia) Rel (k - 1)%nat ltac:(lia)) as (Q & _).
+    pose proof (fwd_rel_nz t r Hn Hr k bl gl yl (k - 1)%nat Rel ltac:(lia)) as Zb. apply eqb_false_nz in Zb.
+    change (@zero ARnd) with 0 in *. change (T ARnd) with R in *.
+    cbn in Eg. injection Eg as Eg.
+    destruct (fdiv_ok (nth (k - 1) (tsup t) 0) (nth (k - 1) bl 0) Zb) as (d1 & H1 & E1).
+    assert (Hg : Rabs g <= 1).
+    { rewrite <- Eg. change (T ARnd) with R in *. rewrite E1. now apply mult_le_1. }
+    destruct (sub_mul_form (nth k (tmain t) 0) (nth (k - 1) (tsub t) 0) g) as (d2 & d3 & H2 & H3 & E23).
+    cbn in Ez. change (T ARnd) with R in *. rewrite E23 in Ez.
+    match type of Ez with (if Req_EM_T ?v ?w then _ else _) = _ => destruct (Req_EM_T v w) as [E0|]; [|discriminate] end.
+    specialize (D k ltac:(lia)).
+    replace (nth k (0 :: tsub t) 0) with (nth (k - 1) (tsub t) 0) in D
+      by (destruct k as [|k']; [lia|]; cbn [nth]; now replace (S k' - 1)%nat with k' by lia).
+    change (T ARnd) with R in *.
+    exact (candidate_nz (nth (k - 1) (tsub t) 0) (nth k (tmain t) 0) (nth k (tsup t) 0) g d2 d3 Hg H2 H3 D E0).
+Qed.
+
+(* both halves: a strictly dominant system (with margin) is solved, and the answer is backward stable *)
+Theorem thomas_dominant_solved_and_stable_lemma (t : tridiag ARnd) (r : list ARnd) :
+  wfT t -> (1 <= tn t)%nat -> length r = tn t -> dominant_su t ->
+  exists x, tsolve t r = Ok x /\ length x = tn t /\
+  forall i, (i < tn t)%nat -> exists da db dc,
+    Rabs da <= 3 * u * Rabs (nth i (0 :: tsub t) 0) /\
+    Rabs db <= 5 * u * Rabs (nth i (tmain t) 0) + 9 * u * Rabs (nth i (0 :: tsub t) 0) /\
+    Rabs dc <= 5 * u * Rabs (nth i (tsup t) 0) /\
+    (nth i (0 :: tsub t) 0 + da) * nth i (0 :: x) 0 + (nth i (tmain t) 0 + db) * nth i x 0
+    + (nth i (tsup t) 0 + dc) * nth (i + 1) x 0 = nth i r 0.
+Proof using u_range fsub_ok fmul_ok fdiv_ok.
+  intros W Hn Hr D. destruct (thomas_dominant_solved_lemma t r W Hn Hr D) as (x & E).
+  exists x. split; [exact E|].
+  exact (thomas_dominant_backward_stable_lemma t r x W Hn Hr (dominant_su_u t D) E).
 Qed.
 
 End Round.
